@@ -159,6 +159,69 @@ def _reference_tree(repo):
     return True
 
 
+def run_rule(r, ctx):
+    """run one rule; when its evaluators meet guards that the reference tree
+    does not contain and no hook decides, run it once per combination of
+    decisions (rat.Fork) and merge: obligations of the first run, findings of
+    all runs, those seen only under some decision marked with the path
+    condition.  Returns a list of Results."""
+    from .rat import FORK
+    runs = []
+    stack = [{}]
+    err = None
+    while stack:
+        assign = stack.pop()
+        FORK.begin(assign)
+        try:
+            out = r(ctx)
+        except AnalysisError as e:
+            out, err = None, (err or e)
+        finally:
+            assign, pending = FORK.end()
+        stack.extend(pending)
+        if out is not None:
+            runs.append((assign, out if isinstance(out, list) else [out]))
+        if len(runs) + len(stack) > 16:
+            break
+    if not runs:
+        if err:
+            raise err
+        return []
+    base = runs[0][1]
+    if len(runs) == 1 and not runs[0][0]:
+        if err:
+            raise err
+        return base
+    where = {}
+    for assign, out in runs:
+        for res in out:
+            for f in res.findings:
+                where.setdefault((f.rule, f.function, f.construct),
+                                 []).append((assign, f))
+    have = {(f.rule, f.function, f.construct)
+            for res in base for f in res.findings}
+    for k, occ in where.items():
+        if len(occ) == len(runs):
+            continue                    # independent of the new guards
+        assign, f = occ[0]
+        cond = ' and '.join(f"`{t}` is {d}" for t, d in sorted(assign.items()))
+        f.message += f' [on the path where the added guard {cond}]'
+        f.path = list(f.path) + [f'guard {t} = {d}'
+                                 for t, d in sorted(assign.items())]
+        if k not in have:
+            tgt = next((res for res in base if res.rule == f.rule), base[0])
+            tgt.fail(f)
+            have.add(k)
+    for res in base:
+        res.notes.append(
+            f'{len(runs)} runs over added guards: ' +
+            '; '.join(sorted({t for a, _ in runs for t in a}))[:300])
+        break
+    if err and not any(res.findings for res in base):
+        raise err
+    return base
+
+
 def run_property(prop, rules, tier, seed, meta):
     """rules: list of callables(ctx) -> Result | list[Result]."""
     t0 = time.time()
@@ -171,7 +234,7 @@ def run_property(prop, rules, tier, seed, meta):
         todo += list(meta.get('thorough', [])) + [selftest_rule(prop)]
     for r in todo:
         try:
-            out = r(ctx)
+            out = run_rule(r, ctx)
         except AnalysisError as e:
             errors.append(f'{getattr(r, "__name__", "rule")}: {e}')
             continue
@@ -307,7 +370,7 @@ def replay(prop, rules, path, meta):
     found = {}
     try:
         for r in rules:
-            out = r(ctx)
+            out = run_rule(r, ctx)
             for res in (out if isinstance(out, list) else [out] if out else []):
                 for f in res.findings:
                     found[f.key(prop)] = f
